@@ -206,6 +206,9 @@ func runCases(col *Collector, drv *Driver, cases []Case) {
 	}
 	// 2. implementation, in parallel
 	workers := runtime.NumCPU()
+	if journalPath != "" {
+		workers = 1
+	}
 	var wg sync.WaitGroup
 	ch := make(chan int, 1024)
 	for w := 0; w < workers; w++ {
@@ -273,7 +276,19 @@ func startWatchdog(fire func(cs *Case, why string)) {
 	}()
 }
 
+// journal mode (VERIF_JOURNAL=<file>, set by ./check after a run died of a fatal runtime error such as a stack
+// overflow, which no recover can catch): one worker, and the input about to be handed to the implementation is
+// written to the file first, so that the file names the input the process died on.
+var journalPath = os.Getenv("VERIF_JOURNAL")
+
+func journal(line string) {
+	if journalPath != "" {
+		os.WriteFile(journalPath, []byte(line), 0o644)
+	}
+}
+
 func safeRun(cs *Case, resp map[string]string) (o Outcome) {
+	journal(cs.Line)
 	wdMu.Lock()
 	wdRunning[cs] = time.Now()
 	wdMu.Unlock()
@@ -572,23 +587,23 @@ func writeEvidence(p *Property, col *Collector, proof proofInfo, tier string, se
 		"Go runtime, strconv, time/tzdata, encoding/json, fmt; driver Breeze0806/mysql beyond its contract",
 	}
 	cov := map[string]interface{}{
-		"obligations":              proof.Obligations,
-		"discharged":               proof.Discharged,
-		"checker_cmd":              proof.CheckerCmd,
-		"trusted_base":             trusted,
-		"theorems":                 proof.Theorems,
-		"axioms":                   proof.Axioms,
-		"facts_pinned":             proof.Pins,
-		"evaluations":              col.evaluations,
-		"distinct_nontrivial":      len(col.nontrivial),
-		"rule":                     p.Rule,
-		"samples":                  col.samples,
-		"distribution":             col.dist,
-		"skipped_model_diverges":   col.skipped,
-		"correspondence_mismatch":  len(col.corrFail),
-		"oracle_failures":          len(col.oracleFail),
-		"known_finding_hits":       col.knownHits,
-		"scenario_counts":          col.extraCounts,
+		"obligations":                   proof.Obligations,
+		"discharged":                    proof.Discharged,
+		"checker_cmd":                   proof.CheckerCmd,
+		"trusted_base":                  trusted,
+		"theorems":                      proof.Theorems,
+		"axioms":                        proof.Axioms,
+		"facts_pinned":                  proof.Pins,
+		"evaluations":                   col.evaluations,
+		"distinct_nontrivial":           len(col.nontrivial),
+		"rule":                          p.Rule,
+		"samples":                       col.samples,
+		"distribution":                  col.dist,
+		"skipped_model_diverges":        col.skipped,
+		"correspondence_mismatch":       len(col.corrFail),
+		"oracle_failures":               len(col.oracleFail),
+		"known_finding_hits":            col.knownHits,
+		"scenario_counts":               col.extraCounts,
 		"traces_validated_against_impl": col.evaluations - col.skipped,
 	}
 	if proof.Discharged == 0 {
